@@ -18,6 +18,7 @@ from typing import Dict, List, Optional
 FS: Dict[str, Optional[str]] = {}
 MTIME: Dict[str, int] = {}
 LOG: List[str] = []
+POISON: Dict[str, BaseException] = {}     # path -> exception raised when the file is opened / read (unreadable side-car)
 CRASH_AT = -1          # index of the effect at which the process dies (-1: never)
 CRASH_BYTES = 0        # how many characters of a crashing write still reach the file
 _clock = [0]
@@ -30,6 +31,7 @@ class Crash(BaseException):
 def reset(state: Optional[Dict[str, Optional[str]]] = None) -> None:
     global CRASH_AT, CRASH_BYTES
     FS.clear()
+    POISON.clear()
     MTIME.clear()
     del LOG[:]
     CRASH_AT = -1
@@ -98,6 +100,8 @@ class _Handle:
     def read(self, n: int = -1) -> str:
         if not any(m in self.mode for m in ("r", "+")):
             raise OSError("not readable")
+        if self.path in POISON:
+            raise POISON[self.path]
         data = FS.get(self.path) or ""
         out = data[self.pos:] if n is None or n < 0 else data[self.pos:self.pos + n]
         self.pos += len(out)
@@ -275,6 +279,8 @@ class MemPath:
         _touch(self._s)
 
     def open(self, mode: str = "r", *a, **k):
+        if self._s in POISON and isinstance(POISON[self._s], OSError):
+            raise POISON[self._s]
         if FS.get(self._s, "") is None and self._s in FS:
             raise IsADirectoryError(self._s)
         if "r" in mode and "+" not in mode or mode.startswith("r"):
